@@ -1205,6 +1205,15 @@ func (p *parser) typeAliasDecl() ast.Declaration {
 
 	p.consumeSeq(token.DOT)
 
+	// without an underlying type (the error was already reported) there is no type to declare
+	if underlying == nil {
+		return &ast.BadDecl{
+			Err: p.lastError,
+			Tok: *begin,
+			Mod: p.module,
+		}
+	}
+
 	decl := &ast.TypeAliasDecl{
 		Range:           token.NewRange(begin, p.previous()),
 		Tok:             *begin,
@@ -1246,6 +1255,15 @@ func (p *parser) typeDefDecl() ast.Declaration {
 	}
 
 	p.consumeSeq(token.DOT)
+
+	// without an underlying type (the error was already reported) there is no type to declare
+	if underlying == nil {
+		return &ast.BadDecl{
+			Err: p.lastError,
+			Tok: *begin,
+			Mod: p.module,
+		}
+	}
 
 	decl := &ast.TypeDefDecl{
 		Range:           token.NewRange(begin, p.previous()),
